@@ -10,5 +10,6 @@ CONSTANTS
   LoopForever = TRUE
   FastPathChecksAtomicQ = FALSE
   Sleeper = FALSE
+  SRun = FALSE
 PROPERTIES AcceptedLeadsToDispatch SentLeadsToSeen
 CHECK_DEADLOCK FALSE
